@@ -301,6 +301,11 @@ namespace Givaro {
     template <class Domain> template<class RandomIterator>
     inline typename Poly1Dom<Domain,Dense>::Rep& Poly1Dom<Domain,Dense>::random(RandomIterator& g, typename Poly1Dom<Domain,Dense>::Rep& r, Degree d) const
     {
+        if (d == Degree::deginfty) {
+            // size 0 (e.g. "same size as b" for b = 0): only the zero polynomial
+            r.resize(0);
+            return r;
+        }
         r.resize((size_t)d.value()+1);
         _domain.nonzerorandom(g, r[(size_t)d.value()]);
         for (int i=(int)d.value(); i--;)
